@@ -20,7 +20,8 @@
     `C17_lexicase_first_case` — in particular the winner is best (or within the epsilon band of the
                               best) on the first case of its order among ALL candidates then available;
     `C17_lexicase_multiplicity` — the output never holds more copies of an individual than the input;
-    `C17_lexicase_total`    — it returns for every sound source whenever `k ≤ len`.
+    `C17_lexicase_total`    — it returns for every sound source whenever `k ≤ len`;
+  * `C17_pinned_lexicase_witness` — the counterexample found on the tree before the `fix:` commit.
 -/
 import GEVerif.Model.Steps
 import GEVerif.Lemmas.Steps
@@ -250,6 +251,18 @@ theorem C17_lexicase_step {σ : Type} (src : Source σ) (cfg : Cfg) (nCases : Na
     cases h
     obtain ⟨hm1, hm2⟩ := C17_lexicase_multiplicity src nCases mins eps k it.items st.rnd tr r hrec
     exact ⟨tr, r, rfl, rfl, by simp [lexicaseGo_length src hrec], hm1, hm2⟩
+
+/-! ## The pinned tree violated the property (witness; repaired by a `fix:` commit) -/
+
+/-- Before the repair the case order was shuffled once and consumed by the first winner.
+Population with case values 0, 0, 1 (minimised), two selections, draws `[0, 1]`: the second
+winner is the individual with value 1 although one with value 0 is still available — it survives
+the lexicase filter for no order of the cases. -/
+theorem C17_pinned_lexicase_witness :
+    ∃ (pop : List Ind) (w1 w2 : Ind),
+      Pinned.lexicase scripted 1 [true] false 2 pop ⟨[0, 1], 0⟩ = some [w1, w2] ∧
+      w2 ∉ lexFilter false [true] [0] (pop.erase w1) :=
+  ⟨[⟨0, 0, [0]⟩, ⟨1, 0, [0]⟩, ⟨2, 0, [1]⟩], ⟨0, 0, [0]⟩, ⟨2, 0, [1]⟩, by decide, by decide⟩
 
 /-! ## Non-vacuity -/
 
